@@ -24,6 +24,47 @@ def _bytes(x):
     return np.asarray(x).tobytes()
 
 
+# Ways a caller has of saying "yes" / "no" to a boolean keyword (magnitude=, ivar=, toair=).  The literal True / False
+# is the reference spelling; everything else is what flags look like when they come out of data: an element of a bool
+# array, a comparison or np.any()/np.all() (numpy.bool_), a 0/1 column (Python / numpy integers, whole floats), a 0-d
+# array, None for "not set".  Built afresh for every call.
+SWITCH_YES = {
+    'numpy.True_': lambda: np.True_,
+    '(numpy.arange(3) == 1)[1]': lambda: (np.arange(3) == 1)[1],
+    'numpy.any([False, True])': lambda: np.any([False, True]),
+    '1': lambda: 1,
+    'numpy.int64(1)': lambda: np.int64(1),
+    'numpy.uint8(1)': lambda: np.uint8(1),
+    '1.0': lambda: 1.0,
+    'numpy.float64(1.0)': lambda: np.float64(1.0),
+    'numpy.array(True)': lambda: np.array(True),
+    'numpy.array(1)': lambda: np.array(1),
+}
+SWITCH_NO = {
+    'numpy.False_': lambda: np.False_,
+    'numpy.all([True, False])': lambda: np.all([True, False]),
+    '0': lambda: 0,
+    'numpy.int64(0)': lambda: np.int64(0),
+    '0.0': lambda: 0.0,
+    'numpy.float64(0.0)': lambda: np.float64(0.0),
+    'None': lambda: None,
+    'numpy.array(False)': lambda: np.array(False),
+    'numpy.array(0)': lambda: np.array(0),
+}
+
+
+def _switch_kind(name):
+    if name == 'None':
+        return 'none'
+    if 'array(' in name:
+        return '0d_array'
+    if name in ('1', '0') or 'int' in name:
+        return 'integer'
+    if name in ('1.0', '0.0') or 'float' in name:
+        return 'float'
+    return 'numpy_bool'
+
+
 class C19(Check):
     ID = 'C19'
     RULE = ('airtovac/vactoair: wavelengths log-uniform over 100 A .. 30 um mixed with 17 edge values around 2000 A '
@@ -32,7 +73,10 @@ class C19(Check):
             'every call is checked for: < 2000 A unchanged, vacuum > air above, both round trips <= 1e-6 A, agreement '
             'of every flavour with the plain float64 array answer (1e-9 relative, in A), caller\'s unit and shape, '
             'argument bytes unchanged.  sdssflux2ab: 1-50 rows x 5 bands incl. negative/zero fluxes, all three forms '
-            'on the same array object.  filter_thru: 1-6 traces x 50-600 px, SDSS-like / narrow / partly or fully '
+            'on the same array object; the magnitude / ivar switches (and toair of filter_thru) also spelled the way flags '
+            'come out of data (numpy.bool_ from indexing / comparison / any / all, Python and numpy 0/1, whole floats, '
+            '0-d arrays, None), as keywords and positionally, alone and combined: bit for bit the answer for the literal '
+            'True / False.  filter_thru: 1-6 traces x 50-600 px, SDSS-like / narrow / partly or fully '
             'out-of-band / decreasing / noisy wavelength solutions as image and as trace set, plus pixel-by-pixel images '
             'that are no polynomial in pixel number (2-3 spliced arms with dispersion ratio 2-30, a dispersion step '
             'inside a band, overlapping arms = locally reversed wavelengths, repeated pixels, 1-3 pixels inside a band) '
@@ -59,6 +103,10 @@ class C19(Check):
         'Python and numpy integer scalars and Quantities built from integer arrays, each against the float64 answer; '
         'plain lists/tuples (not "float, array and Quantity") and integer-dtype sdssflux2ab input may be refused with a '
         'TypeError (what the current tree does, counted as *_refused), but an answer must equal the float64 answer',
+        'boolean switches: "set" means truthy, as the tree tests it (if magnitude / if ivar / if toair); a spelling other '
+        'than the Python bool may be refused loudly (TypeError / ValueError, counted as *_refused), but an answer must be '
+        'the answer for the literal of the same truth; with both magnitude and ivar set the reference is whatever the tree '
+        'answers for magnitude=True, ivar=True',
         'integer flux images (raw counts, i2/i4/i8) are generated for filter_thru since F-A2 was repaired (the pinned tree '
         'answered 0 in every band for them)',
     ]
@@ -74,7 +122,10 @@ class C19(Check):
                          'atv_python_int', 'atv_numpy_int_scalar', 'atv_integer_0d_array', 'atv_integer_quantity',
                          'atv_sequence_calls', 'ab_integer_calls', 'ft_integer_flux_cases',
                          'ft_mask_fractional_float_pixels', 'ft_mask_high_bits_only_pixels', 'ft_mask_nan_inf_pixels',
-                         'ft_mask_negative_pixels', 'ft_mask_int8_int16_pixels')
+                         'ft_mask_negative_pixels', 'ft_mask_int8_int16_pixels',
+                         'ab_switch_spelled_answers', 'ab_switch_truthy_nonliteral_answers',
+                         'ab_switch_numpy_bool_answers', 'ab_switch_integer_answers',
+                         'ft_toair_spelled_answers', 'ft_toair_truthy_spelled_answers')
     MIN_NONTRIVIAL = 20
 
     # ------------------------------------------------------------------ setup
@@ -138,9 +189,16 @@ class C19(Check):
     def gen(self, cls, rng, i):
         if cls.startswith('atv'):
             return self._gen_atv(cls, rng, i)
+        # the spellings of the boolean switches are drawn last, so the data of a case do not depend on them
         if cls == 'flux2ab':
-            return self._gen_ab(rng, i)
-        return self._gen_ft(cls, rng, i)
+            case = self._gen_ab(rng, i)
+            case['yes'] = rng.sample(list(SWITCH_YES), len(SWITCH_YES))
+            case['no'] = rng.sample(list(SWITCH_NO), len(SWITCH_NO))
+            return case
+        case = self._gen_ft(cls, rng, i)
+        if case is not None:
+            case['toair_as'] = rng.choice(list(SWITCH_YES)) if case['toair'] else rng.choice(['False'] + list(SWITCH_NO))
+        return case
 
     @staticmethod
     def _lam(rng):
@@ -835,10 +893,85 @@ class C19(Check):
                            and np.array_equal(arr, keep), 'flux2ab-integer-input',
                            '%s form: %s array gives a different answer than the same values as float64' % (name, idt),
                            got=got[:3], want=want[:3])
+        self._ab_switches(case, out, f, objs, pr, res)
         out.count('ab_rows', rows)
         out.count('ab_repeat_calls', 3)
         out.count('ab_negative_flux', int((pr['flux'] < 0).sum()))
         out.nontrivial = True
+
+    def _ab_switches(self, case, out, f, objs, pr, res):
+        """The three forms are selected by two boolean keywords.  Which form is applied may depend on the truth of the
+        switches only, not on how the caller spells that truth: every spelling of "yes" / "no" (SWITCH_YES / SWITCH_NO),
+        as keyword and positionally, alone and together with the other switch spelled otherwise, must give bit for bit
+        what the literal True / False gave on the same array object (and that answer is tied to the other two forms
+        above).  A loud refusal (TypeError / ValueError) of a spelling other than the Python bool is tolerated and counted."""
+        yes = case.get('yes') or list(SWITCH_YES)
+        no = case.get('no') or list(SWITCH_NO)
+        want = {k: res[k, 0] for k in ('flux', 'ivar', 'mag')}
+        # both switches set: whatever the tree answers for the two literals is the reference for the other spellings
+        want['both'] = np.asarray(f(objs['mag'], magnitude=True, ivar=True), dtype=float)
+        other = {'ivar': ('flux', 'mag'), 'mag': ('flux', 'ivar'), 'flux': ('ivar', 'mag'), 'both': ('flux', 'ivar')}
+        inp = {'flux': 'flux', 'ivar': 'ivar', 'mag': 'mag', 'both': 'mag'}
+
+        def spelled(form, text, names, *a, **k):
+            try:
+                got = f(objs[inp[form]], *a, **k)
+            except (TypeError, ValueError) as e:
+                out.count('ab_switch_refused')
+                out.info.setdefault('switch_refused', {})[text] = '%s: %s' % (type(e).__name__, str(e)[:80])
+                return
+            out.count('ab_switch_spelled_answers')
+            for nm in names:
+                out.count('ab_switch_%s_answers' % _switch_kind(nm))
+            if names and all(nm in SWITCH_YES for nm in names):
+                out.count('ab_switch_truthy_nonliteral_answers')
+            w = want[form]
+            ok = isinstance(got, np.ndarray) and got.shape == w.shape and \
+                np.array_equal(np.asarray(got, dtype=float), w, equal_nan=True)
+            if ok:
+                return
+            how = ''
+            if isinstance(got, np.ndarray) and got.shape == w.shape:
+                g = np.asarray(got, dtype=float)
+                lit = {'flux': {}, 'ivar': {'ivar': True}, 'mag': {'magnitude': True}}
+                for o in other[form]:
+                    if np.array_equal(g, np.asarray(f(objs[inp[form]], **lit[o]), dtype=float), equal_nan=True):
+                        how = ': it is the %s form of the same array' % o
+                nzm = w != 0
+                if nzm.any():
+                    with np.errstate(all='ignore'):
+                        how += ' (largest relative difference %.4g)' % float(np.nanmax(np.abs(g[nzm] / w[nzm] - 1.0)))
+            else:
+                how = ': returned %s' % (type(got).__name__ if not isinstance(got, np.ndarray) else 'shape %s' % (got.shape,))
+            ref = {'flux': 'sdssflux2ab(x)', 'ivar': 'sdssflux2ab(x, ivar=True)', 'mag': 'sdssflux2ab(x, magnitude=True)',
+                   'both': 'sdssflux2ab(x, magnitude=True, ivar=True)'}[form]
+            out.fail('flux2ab-switch-spelling', 'sdssflux2ab(x, %s) differs from %s%s' % (text, ref, how),
+                     got=got.ravel()[:5] if isinstance(got, np.ndarray) else repr(got)[:200], want=w.ravel()[:5])
+
+        for k, t in enumerate(yes):
+            n = no[k % len(no)]
+            t2 = yes[(k + 1) % len(yes)]
+            Y, N = SWITCH_YES[t], SWITCH_NO[n]
+            spelled('ivar', 'ivar=%s' % t, [t], ivar=Y())
+            spelled('mag', 'magnitude=%s' % t, [t], magnitude=Y())
+            spelled('ivar', 'magnitude=%s, ivar=%s' % (n, t), [n, t], magnitude=N(), ivar=Y())
+            spelled('mag', 'magnitude=%s, ivar=%s' % (t, n), [t, n], magnitude=Y(), ivar=N())
+            spelled('ivar', '%s, %s' % (n, t), [n, t], N(), Y())
+            spelled('mag', '%s' % t, [t], Y())
+            spelled('ivar', 'magnitude=False, ivar=%s' % t, [t], magnitude=False, ivar=Y())
+            spelled('both', 'magnitude=%s, ivar=%s' % (t, t2), [t, t2], magnitude=Y(), ivar=SWITCH_YES[t2]())
+            spelled('both', 'magnitude=True, ivar=%s' % t, [t], magnitude=True, ivar=Y())
+        for k, n in enumerate(no):
+            n2 = no[(k + 1) % len(no)]
+            N = SWITCH_NO[n]
+            spelled('flux', 'ivar=%s' % n, [n], ivar=N())
+            spelled('flux', 'magnitude=%s' % n, [n], magnitude=N())
+            spelled('flux', 'magnitude=%s, ivar=%s' % (n, n2), [n, n2], magnitude=N(), ivar=SWITCH_NO[n2]())
+            spelled('flux', '%s, %s' % (n2, n), [n2, n], SWITCH_NO[n2](), N())
+            spelled('mag', 'magnitude=True, ivar=%s' % n, [n], magnitude=True, ivar=N())
+        for name in ('flux', 'ivar', 'mag'):
+            out.expect(np.array_equal(np.asarray(objs[name], dtype=float), pr[name], equal_nan=True), 'flux2ab-consistency',
+                       'the %s array was modified in place by a call with a spelled switch' % name)
 
     # ---- filter_thru ----------------------------------------------------
     def _wset(self, case):
@@ -1121,6 +1254,33 @@ class C19(Check):
             out.count('ft_wset_vs_waveimg')
             if not single:
                 self._worst('ft_wset_waveimg_f8', np.abs(ro - r1).max() / s1)
+        # (7b) the toair switch spelled as flags come out of data (numpy.bool_, 0/1, whole float, 0-d array, None): the
+        # answer may depend on the truth of the switch only.  Loud refusal of a non-bool spelling tolerated and counted.
+        sp = case.get('toair_as')
+        if sp is not None and sp != ('True' if toair else ''):
+            ksp = {'wset': wset} if prim == 'wset' else {'waveimg': wimg}
+            ksp['toair'] = False if sp == 'False' else (SWITCH_YES if toair else SWITCH_NO)[sp]()
+            try:
+                rs = F(f1, **ksp)
+            except (TypeError, ValueError) as e:
+                rs = None
+                out.count('ft_toair_spelling_refused')
+                out.info['toair_refused'] = '%s: %s: %s' % (sp, type(e).__name__, str(e)[:80])
+            if rs is not None:
+                out.count('ft_toair_spelled_answers')
+                if toair:
+                    out.count('ft_toair_truthy_spelled_answers')
+                rs = np.asarray(rs)
+                ok = rs.shape == r1.shape and np.array_equal(rs.astype(float), r1, equal_nan=True)
+                other = ''
+                if not ok and rs.shape == r1.shape:
+                    ko = {'wset': wset} if prim == 'wset' else {'waveimg': wimg}
+                    if not toair:
+                        ko['toair'] = True
+                    if np.array_equal(rs.astype(float), np.asarray(F(f1, **ko), dtype=float), equal_nan=True):
+                        other = ': it is the answer for toair=%s' % (not toair)
+                out.expect(ok, 'filter-switch-spelling', 'filter_thru(..., toair=%s) differs from %s%s' % (
+                    sp, 'toair=True' if toair else 'the call without toair', other), got=rs, want=r1)
         # (8) same flux object again: the answer for an image must not depend on earlier calls having seen it
         r1b = call(f1)
         if r1b is None:
